@@ -15,7 +15,7 @@ from .core import Outcome, PropertySpec, enc
 from gemdat.volume import Volume, trajectory_to_volume  # noqa: E402
 
 PID = 'C08'
-MODULES = ['GProofs.C08']
+MODULES = ['GProofs.C08', 'GProofs.C08Fl']
 RES = [0.5, 0.75, 1.0, 1.25, 2.0, 3.0]
 
 
